@@ -1,0 +1,169 @@
+//go:build verif
+
+// Contracts for package path, checked by /verif/engine (govc). Compiled only
+// with the build tag "verif".
+package path
+
+import (
+	"errors"
+
+	"github.com/theory/sqljson/path/ast"
+	"github.com/theory/sqljson/path/exec"
+	"github.com/theory/sqljson/path/parser"
+)
+
+var (
+	_ ast.Node
+	_ exec.Option
+	_ = parser.Parse
+)
+
+// ghost vocabulary (interpreted by govc; bodies are never executed)
+
+func old[T any](x T) T       { return x }
+func implies(a, b bool) bool { return !a || b }
+func iff(a, b bool) bool     { return a == b }
+func ite[T any](c bool, a, b T) T {
+	if c {
+		return a
+	}
+	return b
+}
+func is[T any](v any) bool                       { _, ok := v.(T); return ok }
+func as[T any](v any) T                          { return v.(T) }
+func errIs(err, target error) bool               { return errors.Is(err, target) }
+func fresh(p any) bool                           { return true }
+func ncalls(f any) int                           { return 0 }
+func callarg[T any](f any, name string) T        { var z T; return z }
+func callret[T any](f any, i int) T              { var z T; return z }
+func forall(f any) bool                          { return true }
+func exists(f any) bool                          { return true }
+func pendingErr() error                          { return nil }
+func pendingFailed() bool                        { return false }
+func ctxDone() bool                              { return false }
+func fitsInt64(x int64) bool                     { return true }
+func fitsInt32(x int64) bool                     { return true }
+func deferActive(field string) bool              { return false }
+func sameFloat(a, b float64) bool                { return a == b }
+func firstret[T any](f any, i int) T             { var z T; return z }
+func dynret[T any](f any, i int, args ...any) T  { var z T; return z }
+func deferObj[T any](field string) T             { var z T; return z }
+func deferVal[T any](field string) T             { var z T; return z }
+func isNaN(f float64) bool                       { return f != f }
+func isInf(f float64) bool                       { return false }
+func toFloat(i int64) float64                    { return float64(i) }
+func truncF(f float64) float64                   { return f }
+func roundHalfAway(f float64) float64            { return f }
+func f2iInRange64(f float64) bool                { return true }
+func f2iTrunc(f float64) int64                   { return int64(f) }
+func loopEntry[T any](x T) T                     { return x }
+func exactCmpIF(i int64, f float64) int          { return 0 }
+func errIsCtx(err error) bool                    { return false }
+func sameSlice[T any](a, b []T) bool             { return len(a) == len(b) }
+func uninterp[T any](name string, args ...any) T { var z T; return z }
+
+//@ sweep safety C04
+
+// ---------------------------------------------------------------------------
+// parsing entry points: a path or an error, never both nil (C04); the four
+// marshalling forms delegate to String and Parse (C02)
+
+//@ func Parse
+//@ props C02 C03 C04
+//@ ensures [C04] one-parse: ncalls(parser.Parse) == 1 && callarg[string](parser.Parse, "path") == path
+//@ ensures [C04] ok: callret[error](parser.Parse, 1) == nil ==> r1 == nil && r0 != nil && fresh(r0) && r0.AST == callret[*ast.AST](parser.Parse, 0)
+//@ ensures [C04] err: callret[error](parser.Parse, 1) != nil ==> r0 == nil && r1 != nil && errIs(r1, ErrPath) && errIs(r1, parser.ErrParse)
+//@ ensures [C04] never-both-nil: (r0 == nil) != (r1 == nil)
+
+//@ func MustParse
+//@ props C04
+//@ requires will-parse: true
+//@ ensures [C04] value: r0 != nil && r0.AST == callret[*ast.AST](parser.Parse, 0) && callret[error](parser.Parse, 1) == nil
+//@ safety off
+
+//@ func (*Path).String
+//@ props C02
+//@ requires path.AST != nil
+//@ ensures [C02] delegates: r0 == path.AST.String()
+
+//@ func (*Path).IsPredicate
+//@ props C03 C06
+//@ requires path.AST != nil
+//@ ensures [C03] delegates: r0 == path.AST.IsPredicate()
+
+//@ func (*Path).PgIndexOperator
+//@ props C03
+//@ requires path.AST != nil
+//@ ensures [C03] operator: r0 == ite(path.AST.IsPredicate(), "@@", "@?")
+
+//@ func (*Path).ExistsOrMatch
+//@ props C06
+//@ requires path.AST != nil
+//@ ensures [C06] predicate-is-match: path.AST.IsPredicate() ==> ncalls(exec.Match) == 1 && ncalls(exec.Exists) == 0 && callarg[*ast.AST](exec.Match, "path") == path.AST && callarg[any](exec.Match, "value") == json && sameSlice(callarg[[]exec.Option](exec.Match, "opt"), opt) && r0 == callret[bool](exec.Match, 0) && r1 == callret[error](exec.Match, 1)
+//@ ensures [C06] otherwise-exists: !path.AST.IsPredicate() ==> ncalls(exec.Exists) == 1 && ncalls(exec.Match) == 0 && callarg[*ast.AST](exec.Exists, "path") == path.AST && callarg[any](exec.Exists, "value") == json && sameSlice(callarg[[]exec.Option](exec.Exists, "opt"), opt) && r0 == callret[bool](exec.Exists, 0) && r1 == callret[error](exec.Exists, 1)
+
+//@ func (*Path).Exists
+//@ props C06
+//@ requires path.AST != nil
+//@ ensures [C06] delegates: ncalls(exec.Exists) == 1 && callarg[*ast.AST](exec.Exists, "path") == path.AST && callarg[any](exec.Exists, "value") == json && sameSlice(callarg[[]exec.Option](exec.Exists, "opt"), opt) && r0 == callret[bool](exec.Exists, 0) && r1 == callret[error](exec.Exists, 1)
+
+//@ func (*Path).Match
+//@ props C06
+//@ requires path.AST != nil
+//@ ensures [C06] delegates: ncalls(exec.Match) == 1 && callarg[*ast.AST](exec.Match, "path") == path.AST && callarg[any](exec.Match, "value") == json && sameSlice(callarg[[]exec.Option](exec.Match, "opt"), opt) && r0 == callret[bool](exec.Match, 0) && r1 == callret[error](exec.Match, 1)
+
+//@ func (*Path).Query
+//@ props C06 C01
+//@ requires path.AST != nil
+//@ ensures [C06] delegates: ncalls(exec.Query) == 1 && callarg[*ast.AST](exec.Query, "path") == path.AST && callarg[any](exec.Query, "value") == json && sameSlice(callarg[[]exec.Option](exec.Query, "opt"), opt) && sameSlice(r0, callret[[]any](exec.Query, 0)) && r1 == callret[error](exec.Query, 1)
+
+//@ func (*Path).First
+//@ props C06
+//@ requires path.AST != nil
+//@ ensures [C06] delegates: ncalls(exec.First) == 1 && callarg[*ast.AST](exec.First, "path") == path.AST && callarg[any](exec.First, "value") == json && sameSlice(callarg[[]exec.Option](exec.First, "opt"), opt) && r0 == callret[any](exec.First, 0) && r1 == callret[error](exec.First, 1)
+
+//@ func (*Path).UnmarshalBinary
+//@ props C02 C04
+//@ modifies path.AST
+//@ ensures [C02 C04] ok: callret[error](parser.Parse, 1) == nil ==> r0 == nil && path.AST == callret[*ast.AST](parser.Parse, 0)
+//@ ensures [C04] err: callret[error](parser.Parse, 1) != nil ==> r0 != nil && errIs(r0, ErrScan) && errIs(r0, parser.ErrParse) && path.AST == old(path.AST)
+//@ ensures [C02] parses-the-bytes: ncalls(parser.Parse) == 1 && callarg[string](parser.Parse, "path") == string(data)
+
+//@ func (*Path).UnmarshalText
+//@ props C02 C04
+//@ modifies path.AST
+//@ ensures [C02] delegates: ncalls(path.UnmarshalBinary) == 1 && sameSlice(callarg[[]byte](path.UnmarshalBinary, "data"), data) && r0 == callret[error](path.UnmarshalBinary, 0)
+
+//@ func (*Path).MarshalBinary
+//@ props C02
+//@ requires path.AST != nil
+//@ ensures [C02] is-string: r1 == nil && string(r0) == path.AST.String()
+
+//@ func (*Path).MarshalText
+//@ props C02
+//@ requires path.AST != nil
+//@ ensures [C02] delegates: ncalls(path.MarshalBinary) == 1 && sameSlice(r0, callret[[]byte](path.MarshalBinary, 0)) && r1 == callret[error](path.MarshalBinary, 1)
+
+//@ func (*Path).Value
+//@ props C02
+//@ requires path.AST != nil
+//@ ensures [C02] is-string: r1 == nil && r0 == any(path.AST.String())
+
+//@ func (*Path).Scan
+//@ props C02 C04
+//@ modifies path.AST
+//@ ensures [C02] nil-noop: src == nil ==> r0 == nil && path.AST == old(path.AST)
+//@ ensures [C02] empty-noop: is[string](src) && as[string](src) == "" ==> r0 == nil && path.AST == old(path.AST) && ncalls(parser.Parse) == 0
+//@ ensures [C02 C04] string-ok: is[string](src) && as[string](src) != "" && callret[error](parser.Parse, 1) == nil ==> r0 == nil && ncalls(parser.Parse) == 1 && callarg[string](parser.Parse, "path") == as[string](src) && path.AST == callret[*ast.AST](parser.Parse, 0)
+//@ ensures [C04] string-err: is[string](src) && as[string](src) != "" && callret[error](parser.Parse, 1) != nil ==> r0 != nil && errIs(r0, ErrScan) && errIs(r0, parser.ErrParse) && path.AST == old(path.AST)
+//@ ensures [C04] other-type: src != nil && !is[string](src) && !is[[]byte](src) ==> r0 != nil && errIs(r0, ErrScan) && path.AST == old(path.AST)
+
+//@ func (*Path).MustQuery
+//@ props C04 C06
+//@ requires path.AST != nil
+//@ safety off
+//@ ensures [C06] value: callret[error](exec.Query, 1) == nil && sameSlice(r0, callret[[]any](exec.Query, 0))
+
+//@ func MustQuery
+//@ props C04
+//@ safety off
